@@ -161,8 +161,8 @@ func GaloisElementsForTrace(params ParameterProvider, logN int) (galEls []uint64
 // i.e. opOut = \sum_{i = 0}^{n-1} phi(i*offset, ctIn).
 // At the scheme level, this function is used to perform inner sums or efficiently replicate slots.
 func (eval Evaluator) PartialTracesSum(ctIn *Ciphertext, offset, n int, opOut *Ciphertext) (err error) {
-	if n == 0 || offset == 0 {
-		return fmt.Errorf("partialtrace: invalid parameter (n = 0 or batchSize = 0)")
+	if n <= 0 || offset == 0 {
+		return fmt.Errorf("partialtrace: invalid parameter (n <= 0 or batchSize = 0)")
 	}
 
 	params := eval.GetRLWEParameters()
@@ -329,6 +329,10 @@ func (eval Evaluator) PartialTracesSum(ctIn *Ciphertext, offset, n int, opOut *C
 //     =
 //     [{f(f(a,c),f(e,g)), f(f(b, d), f(f, h))}, {x, x}, {x, x}, {x, x}, {f(f(a,c),f(e,g)), f(f(b, d), f(f, h))}, {x, x}, {x, x}, {x, x}]
 func (eval Evaluator) InnerFunction(ctIn *Ciphertext, batchSize, n int, f func(a, b, c *Ciphertext) (err error), opOut *Ciphertext) (err error) {
+
+	if n <= 0 {
+		return fmt.Errorf("innerfunction: invalid parameter (n <= 0)")
+	}
 
 	params := eval.GetRLWEParameters()
 
